@@ -110,15 +110,6 @@ theorem finalizeCommon_abs (n : Nat) (x : State) (h : x.buffer.idx ≤ x.buffer.
   simp only [finalizeCommon, finAbs, absP, updateRemainder, Pkt.isEmpty, Pkt.len, Pkt.asSlice, hl]
   by_cases h0 : x.buffer.idx = 0 <;> simp [h0]
 
-/-- the three digests as functions of the final lane state -/
-def out64 (s : St) : BitVec 64 := s.v0.l0 + s.v1.l0 + s.mul0.l0 + s.mul1.l0
-def out128 (s : St) : BitVec 64 × BitVec 64 :=
-  (s.v0.l0 + s.mul0.l0 + s.v1.l2 + s.mul1.l2, s.v0.l1 + s.mul0.l1 + s.v1.l3 + s.mul1.l3)
-def out256 (s : St) : BitVec 64 × BitVec 64 × BitVec 64 × BitVec 64 :=
-  let a := moduleReduction (s.v1.l1 + s.mul1.l1) (s.v1.l0 + s.mul1.l0) (s.v0.l1 + s.mul0.l1) (s.v0.l0 + s.mul0.l0)
-  let b := moduleReduction (s.v1.l3 + s.mul1.l3) (s.v1.l2 + s.mul1.l2) (s.v0.l3 + s.mul0.l3) (s.v0.l2 + s.mul0.l2)
-  (a.1, a.2, b.1, b.2)
-
 theorem finalize64_eq (x : State) : finalize64 x = out64 (finalizeCommon 4 x) := rfl
 theorem finalize128_eq (x : State) : finalize128 x = out128 (finalizeCommon 6 x) := rfl
 theorem finalize256_eq (x : State) : finalize256 x = out256 (finalizeCommon 10 x) := rfl
